@@ -426,7 +426,7 @@ fn o5_3_rounded_complete_anyorder() {
     rounded_complete(12, 6, 3, 3, true);
 }
 
-//@ harness: o1_5_parallel_pairs_are_lines props=C01,C05 tier=quick obl=O1.5 timeout=1200 mem=12
+//@ harness: o1_5_parallel_pairs_are_lines props=C01,C05 tier=quick obl=O1.5 timeout=800 mem=12
 //@ desc: parallel_aabb_group on ANY 4 fragments whose variants are symbolic among Line (symbolic lattice payload), Arc, Circle, Rect, MarkerLine: every index pair it returns refers to two distinct Line fragments and no index occurs twice - so the as_line().expect("expecting a line") calls of is_rect / is_rounded_rect, which only index through these pairs, cannot fire; bounded Vec
 //@ encodes: endorse::parallel_aabb_group, Fragment::is_aabb_parallel, Line::is_aabb_parallel
 #[kani::proof]
